@@ -14,7 +14,7 @@ import itertools
 
 from .. import world as W
 from .. import refcrypto as R
-from ..core import pmap
+from ..core import pmap, room
 
 from tlslite.utils import cipherfactory as CF
 from tlslite.utils import tlshashlib
@@ -59,13 +59,14 @@ class Acc(object):
         self.n = 0
         self.fails = []
         self.kinds = {}
+        self.pc = {}
 
     def eq(self, kind, case, got, want):
         self.n += 1
         self.kinds[kind] = self.kinds.get(kind, 0) + 1
         g = None if got is None else bytes(got)
         w = None if want is None else bytes(want)
-        if g != w and len(self.fails) < 20:
+        if g != w and room(self.pc, kind, 6):
             self.fails.append({"kind": kind, "case": case,
                                "got": None if g is None else g[:32].hex(),
                                "want": None if w is None else w[:32].hex()})
